@@ -556,6 +556,12 @@ func genLoop(seed uint64, caseNo int, rate int) caseOut {
 	case x < 34:
 		torsim.GenFinaliseCase(r, ru, rate)
 		return caseOut{ru.Lines, ru.Viol, ru.Tags}
+	case x < 46:
+		torsim.GenBystanderCase(r, ru, rate)
+		return caseOut{ru.Lines, ru.Viol, ru.Tags}
+	case x < 50:
+		torsim.GenStallCase(r, ru, rate)
+		return caseOut{ru.Lines, ru.Viol, ru.Tags}
 	}
 	ps := r.PickInt(16384, 32768)
 	n := 2 + r.Intn(4)
